@@ -1157,10 +1157,12 @@ impl<T: Serialize + for<'de> Deserialize<'de> + Clone + PartialEq + Send + Sync 
                 }
             }
 
-            // Deserialize entry
-            let entry: WalEntry = match postcard::from_bytes(&buffer) {
-                Ok(e) => e,
-                Err(_) => {
+            // Deserialize entry; the record must fill its frame exactly (a damaged
+            // length prefix that merely grows the frame would otherwise swallow the
+            // following records without a trace)
+            let entry: WalEntry = match postcard::take_from_bytes::<WalEntry>(&buffer) {
+                Ok((e, rest)) if rest.is_empty() => e,
+                _ => {
                     stats.corruption_events.push(CorruptionEvent {
                         file_path: path.to_path_buf(),
                         corruption_type: CorruptionType::InvalidFormat,
